@@ -872,8 +872,56 @@ def simple_interfaces(res, unit):
                 if got_old[f] is not before[f] or getattr(s0, f) is not before[f]:
                     fail("simple", f"input:{f}@dcn", case, f"field {f} of the input state: {got_old[f]!r} instead of the object {before[f]!r}")
             res.outcome("simple", "dcn", len(sub), i)
+    # a state dataclass registered as a pytree whose class carries a plain class-level default that is
+    # NOT a declared field (the interface accepts every attribute the state has): the put/get law must
+    # hold in the same way eagerly, under jit and under vmap, for every subset of keys
+    from liesel.goose.pytree import register_dataclass_as_pytree
+
+    @register_dataclass_as_pytree
+    @dataclasses.dataclass
+    class DCA:
+        x: object
+        loc: object
+        temperature = 1.0  # no annotation: a class attribute, not a dataclass field
+
+    itf = gs.DataclassInterface(lambda st: -jnp.sum((st.x - st.loc) ** 2) / st.temperature)
+    akeys = ("x", "loc", "temperature")
+    amenu = {"x": jnp.asarray([0.5, -1.0], jnp.float32), "loc": jnp.float32(0.75), "temperature": jnp.float32(4.0)}
+    for sub in [c for r in range(1, 4) for c in itertools.combinations(akeys, r)]:
+        s0 = DCA(x=jnp.asarray([-1.0, 2.0], jnp.float32), loc=jnp.float32(0.5))
+        p = {k: amenu[k] for k in sub}
+        want = {k: np.asarray(p[k] if k in sub else getattr(s0, k)).tolist() for k in akeys}
+        want_lp = float(-np.sum((np.asarray(want["x"]) - want["loc"]) ** 2) / want["temperature"])
+        for mode in ("eager", "jit", "vmap"):
+            case = {"interface": "dca", "keys": list(sub), "mode": mode}
+            try:
+                if mode == "eager":
+                    new = _guard(itf.update_state, p, s0)
+                    got = _guard(itf.extract_position, list(akeys), new)
+                    lp = float(_guard(itf.log_prob, new))
+                elif mode == "jit":
+                    new = _guard(jax.jit(itf.update_state), p, s0)
+                    got = _guard(itf.extract_position, list(akeys), new)
+                    lp = float(_guard(jax.jit(itf.log_prob), new))
+                else:
+                    ps = {k: jnp.stack([v, v]) for k, v in p.items()}
+                    ss = jax.tree_util.tree_map(lambda a: jnp.stack([a, a]), s0)
+                    new = _guard(jax.vmap(itf.update_state), ps, ss)
+                    got = {k: jnp.asarray(v)[1] if np.ndim(v) > np.ndim(want[k]) else v for k, v in _guard(itf.extract_position, list(akeys), new).items()}
+                    lp = float(_guard(jax.vmap(itf.log_prob), new)[1])
+            except LieselRaised as e:
+                fail("simple", f"raises@dca-{mode}", case, f"dataclass state with a non-field class attribute: {e}")
+                continue
+            res.transitions += 1
+            res.executions += 1
+            for k in akeys:
+                if np.asarray(got[k]).tolist() != want[k]:
+                    fail("simple", f"{'put-get' if k in sub else 'frame'}:{k}@dca-{mode}", case, f"[{mode}] after update_state({list(sub)}) extract_position gives {k} = {np.asarray(got[k]).tolist()}, expected {want[k]}")
+            if abs(lp - want_lp) > 1e-5 * (1 + abs(want_lp)):
+                fail("simple", f"log-prob@dca-{mode}", case, f"[{mode}] log_prob of the updated state is {lp}, the state that was put gives {want_lp}")
+            res.outcome("simple", "dca", len(sub), mode)
     res.note(["simple", res.transitions, res.executions])
-    res.sample({"simple_interfaces": list(kinds) + ["dcn"], "key_subsets": {k: 2 ** len(v) for k, v in kfields.items()}, "chains": res.executions})
+    res.sample({"simple_interfaces": list(kinds) + ["dcn", "dca"], "key_subsets": {k: 2 ** len(v) for k, v in kfields.items()}, "chains": res.executions})
 
 
 _CACHE_DIR = None
